@@ -136,7 +136,7 @@ class World:
                 return data["str"]
             core = {k: v for k, v in data.items()
                     if k in ("type", "v", "name", "age", "guid")}
-            key = repr(sorted(core.items()))
+            key = repr(sorted(core.items(), key=repr))
             cache = world.deser_cache
             if key not in cache:  # equal stored values give one object per load
                 cache[key] = decode_value(core, nt)
@@ -150,7 +150,7 @@ class World:
             (base,),
             {
                 "DEFAULT_KEY_MAP": key_map,
-                "DEFAULT_VALUE_MAP": {"type": ["int", "tup", "person", "obj", "wrap"]},
+                "DEFAULT_VALUE_MAP": {"type": ["int", "tup", "person", "obj", "wrap", "udict"]},
                 "serialize_mapper": classmethod(ser),
                 "deserialize_mapper": classmethod(deser),
             },
